@@ -559,6 +559,11 @@ fill_yly_ywd(
 		/* ywd */
 		int dc;
 
+		if (wk > (int)get_isowk(y) || -wk > (int)get_isowk(y)) {
+			/* no such week this year */
+			continue;
+		}
+
 		for (bitint_iter_t dowi = 0UL;
 		     (dc = bi447_next(&dowi, dow), dowi);) {
 			struct md_s md;
